@@ -69,6 +69,19 @@ def check(chk):
         h = [n for n in cfg.nodes_where(lambda n: n.kind == "stmt" and isinstance(n.ast, ast.Assign) and src(n.ast.targets[0]) == "self._delay_handler")]
         chk.ob("DOM-31", "the scheduled handle is kept (so pause/stop can cancel it)", bool(h), f.where(), construct=f.ident, text="handle kept")
     REBASE = {"resume", "advance", "step_back"}
+    # user control re-bases the schedule *exactly* on the clock, before the step it triggers runs
+    for nm in sorted(REBASE):
+        m = rs.methods.get(nm)
+        if m is None:
+            continue
+        chk.analysed(m)
+        mc = m.cfg()
+        runs = [n for n, c in mc.calls_named("_run_next_step")]
+        rb = [n for n in mc.nodes_where(lambda n: n.kind == "stmt" and isinstance(n.ast, ast.Assign) and src(n.ast.targets[0]) == "self.next_step_time")]
+        ok = bool(rb) and all(src(n.ast.value) == "self.machine.clock.get_time()" for n in rb) and bool(runs) and \
+            all(any(mc.dominates(b.id, r.id) for b in rb) for r in runs)
+        chk.ob("DOM-31", "RunningShow.%s restarts the schedule at exactly the current time (not at the old deadline)" % nm, ok, m.where(),
+               detail="rebase: %s" % [src(n.ast.value) for n in rb], construct=m.ident, text="exact rebase in " + nm)
     for m in rs.methods.values():
         for x in walk_local(m.node):
             if isinstance(x, ast.Assign) and src(x.targets[0]) == "self.next_step_time" and "get_time()" in src(x.value):
@@ -160,8 +173,20 @@ def check(chk):
         w = scfg.must_pass(mark[0].id, [loops[0].id])
         chk.ob("PAIR-20", "… on every path of an accepted stop", w is None, s_.where(), construct=s_.ident, text="clear on all paths")
     rm = [n.id for n, c in scfg.calls_named("_remove_delay_handler")]
-    ok = bool(rm) and bool(mark) and scfg.must_pass(mark[0].id, rm) is None
+    # the helper itself tests for a pending handle, so `if self._delay_handler: self._remove_delay_handler()` is the same thing
+    nothing_pending = [b.id for b in scfg.nodes if b.kind == "branch" and src(b.ast) == "self._delay_handler" and b.value is False]
+    ok = bool(rm) and bool(mark) and scfg.must_pass(mark[0].id, rm + nothing_pending) is None
     chk.ob("PAIR-20", "stop() cancels the pending step", ok, s_.where(), construct=s_.ident, text="pending step cancelled")
+    # a show that replaced another one in sync still owes that show its stop: the pending start callback runs whenever there is one
+    for n_ in scfg.nodes:
+        if n_.kind == "stmt" and any(isinstance(c, ast.Call) and src(c.func) == "self.start_callback" for c in n_.calls()):
+            g = {k: v for k, v in scfg.guards_at(n_.id).items()}
+            from sa.cfg import canon_set
+            extra = canon_set(g) - canon_set({"self._stopped": False, "self.start_callback": True})
+            chk.ob("PAIR-20", "stop() runs a pending start callback whenever there is one (nothing else decides)", not extra, s_.where(n_.ast),
+                   detail="additional conditions: %s" % sorted(extra), construct=s_.ident, text="start callback condition in stop")
+    if not any(isinstance(c, ast.Call) and src(c.func) == "self.start_callback" for c in ast.walk(s_.node)):
+        chk.missing("PAIR-20", "stop() runs a pending start callback (the replaced show is stopped through it)", s_)
     rset = [n for n in scfg.nodes_where(lambda n: n.kind == "stmt" and isinstance(n.ast, ast.Assign) and src(n.ast.targets[0]) == "self._players")]
     ok = bool(rset) and bool(loops) and scfg.dominates(loops[0].id, rset[0].id)
     chk.ob("PAIR-20", "the remembered players are forgotten after they were cleared", ok, s_.where(), construct=s_.ident, text="players reset")
@@ -404,6 +429,9 @@ def battery():
         M("negative index not wrapped", SH, "        if self.next_step_index < 0:\n            self.next_step_index %= self._total_steps\n", "", "START-17"),
         M("stop colour ignored", LP, "        if isinstance(color, str) and color == \"stop\":\n            self._light_remove(light, instance_dict, full_context, fade_ms)\n            return\n", "", "FLOW-8"),
         M("light coloured without the step's start time", LP, "priority=priority, start_time=start_time)", "priority=priority)", "FLOW-8"),
+        M("resume keeps the old deadline", SH, "        self.next_step_time = self.machine.clock.get_time()\n        self._run_next_step(post_events=self.show_config.events_when_resumed)", "        self.next_step_time = max(self.next_step_time, self.machine.clock.get_time())\n        self._run_next_step(post_events=self.show_config.events_when_resumed)", "DOM-31"),
+        M("pending start callback only while the start timer is pending", SH, "        if self.start_callback:\n            self.start_callback()\n            self.start_callback = None\n\n        self._remove_delay_handler()\n\n        # clear context in used players", "        if self._delay_handler:\n            if self.start_callback:\n                self.start_callback()\n                self.start_callback = None\n            self._remove_delay_handler()\n\n        # clear context in used players", "PAIR-20"),
+        M("twin: pending step removed only when there is one", SH, "        self._remove_delay_handler()\n\n        # clear context in used players", "        if self._delay_handler:\n            self._remove_delay_handler()\n\n        # clear context in used players", None),
     ]
 
 
